@@ -172,6 +172,10 @@ pub fn run(e: &Engine) {
             cfgs.push(Config { n, fanout, keylen, kind: 1 + ((i + j) % 2) as u8, values: if (i + j) % 2 == 0 { 0 } else { 2 }, geom, seed: crate::engine::mix(e.seed, (i * 3 + j) as u64) });
         }
     }
+    // keys that are proper prefixes of their successors (k, k+x): leaf nodes that later gain a transition
+    for (j, geom) in [Some((64usize, 2usize)), None].into_iter().enumerate() {
+        cfgs.push(Config { n: n / 2, fanout: 4, keylen: 20, kind: 3, values: if j == 0 { 0 } else { 2 }, geom, seed: crate::engine::mix(e.seed, 50 + j as u64) });
+    }
     if e.tier == crate::engine::Tier::Thorough {
         for (i, geom) in [Some((64usize, 2usize)), None, Some((10_000, 4))].into_iter().enumerate() {
             cfgs.push(Config { n: 10_000_000, fanout: 4, keylen: 24, kind: 1, values: (i % 2) as u8 * 2, geom, seed: crate::engine::mix(e.seed, 100 + i as u64) });
